@@ -10,6 +10,7 @@
 #include <sstream>
 #include <stdexcept>
 #include <nfl.hpp>
+#include <cereal/archives/binary.hpp>
 typedef unsigned long long ull;
 typedef nfl::poly_p<uint32_t, 8, 1> P;
 static const int H = 3;
@@ -60,6 +61,17 @@ int main() {
       }
       else if (op == "deserbad") {    // deserialisation from a stream holding only 6 bytes: first word and a half overwritten, rest kept
         is >> h; std::string six("\x11\x22\x33\x44\x55\x66", 6); std::istringstream st(six); s[h]->deserialize_manually(st);
+      }
+      else if (op == "fma") { is >> h >> g >> k; *s[h] = *s[h] + *s[g] * *s[k]; }                  // destination read inside a nested expression
+      else if (op == "ilbad") {       // initializer-list assignment of a wrong length: throws, value must survive
+        is >> h; try { *s[h] = {1u, 2u, 3u, 4u, 5u, 6u, 7u, 8u, 9u, 10u, 11u}; os << " NOTHROW"; } catch (std::runtime_error const&) {}
+      }
+      else if (op == "cload") {       // cereal: archive written from handle g, loaded into handle h (which may share its payload)
+        is >> h >> g; std::stringstream ss; { cereal::BinaryOutputArchive oa(ss); P const& src = *s[g]; P tmp(src); oa(tmp); }
+        { cereal::BinaryInputArchive ia(ss); ia(*s[h]); }
+      }
+      else if (op == "csave") {       // cereal: saving must not change anything (the archive bytes are the raw words)
+        is >> h; std::stringstream ss; { cereal::BinaryOutputArchive oa(ss); oa(*s[h]); } os << " bytes=" << ss.str().size();
       }
       else if (op == "destroy") { is >> h; delete s[h]; s[h] = 0; }
       else { os << " badop"; }
